@@ -86,8 +86,10 @@ def gen_case(rng, long=False):
             ops.append(["merge"])
         elif r < 0.93:
             ops.append(["split"])
-        else:
+        elif r < 0.97 or sep:
             ops.append(["promote"])
+        else:
+            ops.append(["persist"])  # the graph goes through a snapshot (written, loaded into a fresh state) and the history goes on
     return {"cfg": cfg, "ops": ops, "sep": sep, "gate_off_probe": rng.random() < 0.3}
 
 
@@ -326,6 +328,25 @@ def check_case(case, sess: Session):
                 # keep the model in step: concept edges join the edge map the model ticks
                 medges.clear()
                 medges.update({(str(r.get("src")), str(r.get("dst"))): copy.deepcopy(r) for r in gr.get("edges", {}).values()})
+            elif kind == "persist" and state.get("graph") is not None:
+                import clematis.engine.snapshot as S
+                from vlib.harness import tmpdir
+                with tmpdir("c18s_") as d_:
+                    full2 = copy.deepcopy(full)
+                    full2.setdefault("t4", {})["snapshot_dir"] = d_
+                    sctx = NS(turn_id=1, agent_id="A", cfg=to_ad(full2), config=to_ad(full2))
+                    S.write_snapshot(sctx, {"graph": state["graph"], "version_etag": "1"}, "1", applied=0, deltas=[])
+                    fresh = {}
+                    S.load_latest_snapshot(sctx, fresh)
+                if isinstance(fresh.get("graph"), dict):
+                    n_before = len(norm_edges(before.get("edges", {})))
+                    state["graph"] = fresh["graph"]
+                    sess.count("histories_continued_after_a_snapshot_round_trip")
+                    if len(norm_edges(state["graph"].get("edges", {}))) != n_before:
+                        sess.violation("persist:edge-count-changed-by-the-round-trip", tcase, {"before": n_before, "after": len(norm_edges(state["graph"].get("edges", {})))})
+                    # the model goes on from the restored weights (the snapshot rounds them)
+                    medges.clear()
+                    medges.update({(str(r.get("src")), str(r.get("dst"))): copy.deepcopy(r) for r in state["graph"].get("edges", {}).values()})
         except Exception as ex:
             import traceback
             sess.violation("raises:" + type(ex).__name__, tcase, traceback.format_exc()[-400:])
